@@ -92,7 +92,8 @@ var vocabAll = []string{"collision_mode", "exit_sequence", "identifier", "bus", 
 	"semitone", "channel", "mapping", "velocity", "action_mapping", "open_rgb", "white", "black", "c", "unavailable", "other", "active",
 	"active_external", "name", "keys", "subhandler", "map", "analog", "default_deadzone", "type", "cc", "cc_negative", "note",
 	"note_negative", "channel_offset", "channel_offset_negative", "action", "action_negative", "flip_axis", "deadzone_at_center",
-	"deadzones", "KEY_A", "KEY_ESC", "ABS_X", "ABS_HAT0Y", "x1f", "0", "1", "HIDI", "pool_rate"}
+	"deadzones", "KEY_A", "KEY_ESC", "ABS_X", "ABS_HAT0Y", "x1f", "0", "1", "HIDI", "pool_rate",
+	`""`, `"x"`, `" "`, `"KEY_A "`, "x", "xg", "x-1", "x10000", `"a.b"`}
 
 func genScalar(t *rapid.T) string {
 	switch rapid.IntRange(0, 13).Draw(t, "scalarKind") {
@@ -177,7 +178,7 @@ func mutateText(t *rapid.T, text string) string {
 	n := rapid.IntRange(1, 3).Draw(t, "mutations")
 	for i := 0; i < n && len(lines) > 0; i++ {
 		pos := rapid.IntRange(0, len(lines)-1).Draw(t, "line")
-		switch rapid.IntRange(0, 9).Draw(t, "mutation") {
+		switch rapid.IntRange(0, 10).Draw(t, "mutation") {
 		case 0: // delete a line
 			lines = append(lines[:pos], lines[pos+1:]...)
 		case 1: // duplicate a line
@@ -214,6 +215,16 @@ func mutateText(t *rapid.T, text string) string {
 			}
 		case 8: // insert a random schema line
 			lines = append(lines[:pos+1], append([]string{rapid.SampledFrom(vocabAll).Draw(t, "insKey") + " = " + genScalar(t)}, lines[pos+1:]...)...)
+		case 10: // blank a key name (quoted empty key) or a quoted value
+			l := lines[pos]
+			if j := strings.Index(l, "="); j > 0 && rapid.Bool().Draw(t, "blankKey") {
+				indent := l[:len(l)-len(strings.TrimLeft(l, " "))]
+				lines[pos] = indent + rapid.SampledFrom([]string{`""`, `"x"`, `" "`, "x"}).Draw(t, "emptyKey") + " " + l[j:]
+			} else if a := strings.Index(l, `"`); a >= 0 {
+				if b := strings.Index(l[a+1:], `"`); b >= 0 {
+					lines[pos] = l[:a+1] + l[a+1+b:]
+				}
+			}
 		case 9: // corrupt a byte
 			if len(lines[pos]) > 0 {
 				bs := []byte(lines[pos])
@@ -263,7 +274,8 @@ func FuzzC09(f *testing.F) {
 	}
 	for _, s := range []string{"", "[[mapping.0]]0", "[[mapping]]\nname=\"a\"\n[[mapping.analog]]\n[mapping.analog.map]\nABS_X={type=\"action\",action=\"panic\"}",
 		"collision_mode = \"off\"\n[defaults]\nmapping = \"\"\n[[mapping]]\n", "mapping = 1", "[mapping]\n[mapping.keys]", "a.b.c = {d = [1, {e = 2}]}",
-		"[[mapping]]\n[[mapping.keys]]\n[mapping.keys.map]\nx1 = \"c0,1\"\n"} {
+		"[[mapping]]\n[[mapping.keys]]\n[mapping.keys.map]\nx1 = \"c0,1\"\n", "[[mapping]]\n[[mapping.keys]]\n[mapping.keys.map]\n\"\" = \"\"\n",
+		"collision_mode = \"off\"\nexit_sequence = [\"\"]\n[action_mapping]\n\"\" = \"\"\n[defaults]\nmapping = \"\"\n[[mapping]]\nname = \"\"\n"} {
 		f.Add([]byte(s))
 	}
 	if dir := os.Getenv("VERIF_CORPUS"); dir != "" {
